@@ -274,6 +274,67 @@ fn pbkw_sequences<B: Backend, P: Prims>(opts: &Opts, rep: &mut Report) {
     }
 }
 
+/// every password length 0..=300 (and around 512 / 1024 / 4096): the KDFs treat passwords longer than
+/// their hash block differently from shorter ones, and the boundaries differ per hash
+fn password_lengths<B: Backend, P: Prims>(opts: &Opts, rep: &mut Report) {
+    if !opts.wants_backend(B::NAME) {
+        return;
+    }
+    let stream = format!("c07.pwlen.{}", B::NAME);
+    let mut idx = 0u64;
+    let lens: Vec<usize> = (0..=300).chain([511, 512, 513, 1023, 1024, 1025, 4096]).collect();
+    for &plen in &lens {
+        for kind in [Wk::PwLocal, Wk::PwSecret] {
+            idx += 1;
+            if !opts.mine_sys(idx) {
+                continue;
+            }
+            if B::VER == 1 && kind == Wk::PwSecret && plen % 4 != 0 {
+                continue;
+            }
+            let mut rng = Rng::derive(opts.seed, &stream, idx);
+            let hdr = kind.header(B::VER);
+            let key_raw = gen_wrapped_key::<B>(kind, &mut rng);
+            let pass = match plen % 3 {
+                0 => rng.bytes(plen),
+                1 => (0..plen).map(|i| b'a' + (i % 26) as u8).collect(),
+                _ => vec![0xff; plen],
+            };
+            let params = if B::VER % 2 == 1 { r::PwParams { iters_or_time: 1 + (plen % 3) as u32, mem_bytes: 0, para: 1 } } else { r::PwParams { iters_or_time: 1, mem_bytes: 8192, para: 1 } };
+            let mut s = Secrets::blank();
+            s.pass = pass.clone();
+            s.pw_params = params.bytes(B::VER);
+            let (sl, pl, nl) = if B::VER % 2 == 1 { (32, 4, 16) } else { (16, 16, 24) };
+            let d = |what: &str, blob: &str| json!({"backend": B::NAME, "reference_family": P::NAME, "kind": kind.name(), "password_len": plen, "password": hx_short(&pass), "pw_params": format!("{params:?}"), "what": what, "blob": blob.chars().take(400).collect::<String>()});
+            match guard(|| wrap::<B>(kind, &key_raw, &s)) {
+                Ok(Ok(blob)) => {
+                    let (_, body) = split_paserk(&blob);
+                    if body.len() >= sl + pl + nl {
+                        if let Some(want) = ref_pbkw_wrap::<P>(B::VER, &hdr, &pass, &params, &body[..sl], &body[sl + pl..sl + pl + nl], &key_raw, rep) {
+                            if want != body {
+                                rep.violation(&format!("C07|{}|{}|differs-from-reference:password-length", B::NAME, kind.name()), d("blob is not what the specification prescribes for this password", &blob));
+                            }
+                        }
+                    }
+                }
+                Ok(Err(e)) => rep.violation(&format!("C07|{}|{}|wrap-error:{}:password-length", B::NAME, kind.name(), err_kind(&e)), d("wrap failed", "")),
+                Err(pn) => rep.violation(&format!("C07|{}|{}|wrap-panic", B::NAME, kind.name()), d(&pn, "")),
+            }
+            if let Some(body) = ref_pbkw_wrap::<P>(B::VER, &hdr, &pass, &params, &rng.bytes(sl), &rng.bytes(nl), &key_raw, rep) {
+                let text = join_paserk(&hdr, &body);
+                match guard(|| unwrap::<B>(kind, &text, &s)) {
+                    Ok(Ok(k)) if k == key_raw => {}
+                    Ok(Ok(_)) => rep.violation(&format!("C07|{}|{}|reference-blob-wrong-key:password-length", B::NAME, kind.name()), d("unwrapped to a different key", &text)),
+                    Ok(Err(e)) => rep.violation(&format!("C07|{}|{}|reference-blob-rejected:{}:password-length", B::NAME, kind.name(), err_kind(&e)), d("library rejected a specification-conforming blob", &text)),
+                    Err(pn) => rep.violation(&format!("C07|{}|{}|unwrap-panic", B::NAME, kind.name()), d(&pn, &text)),
+                }
+            }
+            rep.case(&format!("{}.{}.password-length", B::NAME, kind.name()), fnv_parts(&[B::NAME.as_bytes(), kind.name().as_bytes(), &(plen as u64).to_le_bytes()]), true);
+            rep.sample_class(&format!("{}.{}.password-length", B::NAME, kind.name()), 1, || d("library and reference agree in both directions", ""));
+        }
+    }
+}
+
 /// sibling backends unwrap each other's output
 fn siblings<A: Backend, B: Backend>(opts: &Opts, rep: &mut Report) {
     if !(opts.wants_backend(A::NAME) && opts.wants_backend(B::NAME)) {
@@ -338,6 +399,12 @@ pub fn run(opts: &Opts) {
         pbkw_sequences::<V4, Ffi>(opts, &mut rep);
         pbkw_sequences::<V3Lc, Rc>(opts, &mut rep);
         pbkw_sequences::<V4Na, Rc>(opts, &mut rep);
+        password_lengths::<V1, Ffi>(opts, &mut rep);
+        password_lengths::<V2, Ffi>(opts, &mut rep);
+        password_lengths::<V3, Ffi>(opts, &mut rep);
+        password_lengths::<V4, Ffi>(opts, &mut rep);
+        password_lengths::<V3Lc, Rc>(opts, &mut rep);
+        password_lengths::<V4Na, Rc>(opts, &mut rep);
     }
     #[cfg(not(feature = "ffi"))]
     {
@@ -346,7 +413,7 @@ pub fn run(opts: &Opts) {
     }
     rep.set(
         "rule",
-        json!("differential: (kind, wrapped key, wrapping key / password + in-budget parameter grid / recipient) from a seeded generator; (a) the library's blob is re-derived by the reference (other primitive family) from the nonce/salt it embeds and must be identical (PIE, PBKW) or unsealed by the reference to the same key (PKE); (c) reference-built blobs with chosen nonces/salts (00.., ff.., AES counter blocks that wrap 64 bits for k1/k3 password wraps) must unwrap to the same key; (d) sibling backends unwrap each other's output; distinct = distinct input tuples"),
+        json!("password-length sweep: for both password-wrap kinds every password length 0..=300 and around 512/1024/4096, library blob re-derived by the reference and reference-built blob unwrapped by the library; differential: (kind, wrapped key, wrapping key / password + in-budget parameter grid / recipient) from a seeded generator; (a) the library's blob is re-derived by the reference (other primitive family) from the nonce/salt it embeds and must be identical (PIE, PBKW) or unsealed by the reference to the same key (PKE); (c) reference-built blobs with chosen nonces/salts (00.., ff.., AES counter blocks that wrap 64 bits for k1/k3 password wraps) must unwrap to the same key; (d) sibling backends unwrap each other's output; distinct = distinct input tuples"),
     );
     rep.set(
         "unexplored",
